@@ -66,6 +66,10 @@ CHECKS = {
  'C14': dict(engine='P+S', technique='same exploration; per-access (line, goroutine, location) log vs instruction locality obtained through the public escape interface',
              text='A line whose memory instructions are all classified local (nil rationale in the arbitrary context of its function) must never access a location that another goroutine has already accessed in the same explored execution.',
              note='observed sharing, not reachability (weaker, one-sided); arbitrary contexts only', ref='§6 C14'),
+
+ 'C11': dict(engine='P', technique='bounded-exhaustive enumeration of pointer-operation sequences + exhaustive native execution with object-identity probes vs points-to queries of the real pointer analysis',
+             text='Every sequence of <=2 (thorough <=3) operations over a 20-operation pointer alphabet, all valuations: probes of the same static type that saw the same object in one execution must MayAlias, and the marked allocation of a probed object must be a label of its points-to set.',
+             note='values without a registered query are not judged (counted); small-scope bound', ref='§6 C11'),
 }
 NA = []
 def main():
